@@ -471,8 +471,25 @@ func lookupCases(o *out, r *rng, n int) {
 			body = append(body, r.tlv(ts[r.intn(len(ts))], r.bytes(l), l)...)
 		}
 		data := append(header(r.intn(65536), len(body), r.bytes(12)), body...)
-		o.run(202, []string{fHex(data), fNums(ts[r.intn(3)], r.intn(5))}, true)
+		o.run(202, []string{fHex(data), fNums(ts[r.intn(4)], r.intn(5))}, true)
 		o.count("foreach-with-failing-callback")
+		// an attribute the caller put into the list itself, with a nil Value (a zero-length attribute): every
+		// lookup finds it
+		{
+			t := stun.AttrType(ts[r.intn(4)])
+			cm := new(stun.Message)
+			if stun.Decode(data, cm) == nil {
+				cm.Attributes = append(cm.Attributes[:len(cm.Attributes):len(cm.Attributes)], stun.RawAttribute{Type: 0x7F31})
+				v, gerr := cm.Get(0x7F31)
+				_, ok := cm.Attributes.Get(0x7F31)
+				visits := 0
+				_ = cm.ForEach(0x7F31, func(*stun.Message) error { visits++; return nil })
+				_, terr := cm.Get(t)
+				if gerr != nil || len(v) != 0 || !ok || !cm.Contains(0x7F31) || visits != 1 || (terr == nil) != cm.Contains(t) {
+					o.fail("lookups-disagree", fmt.Sprintf("202 %s %s (an attribute of type 0x7f31 with a nil Value appended to the decoded list by the caller: Get error %v, Attributes.Get %v, Contains %v, ForEach visits %d)", fHex(data), fNums(int(t), 0), gerr, ok, cm.Contains(0x7F31), visits))
+				}
+			}
+		}
 	}
 }
 
@@ -1101,7 +1118,7 @@ func runC02(o *out, thorough bool, r *rng, _ []string) map[string]interface{} {
 		}
 		data := append(header(r.intn(65536), len(body), r.bytes(12)), body...)
 		o.run(201, []string{fHex(data)}, true)
-		o.run(202, []string{fHex(data), fNums(ts[r.intn(3)], r.intn(5))}, true)
+		o.run(202, []string{fHex(data), fNums(ts[r.intn(4)], r.intn(5))}, true)
 		o.count("kind:repeated-types")
 	}
 	_ = bytes.Equal
